@@ -45,6 +45,11 @@ def snapshot(instances=()):
                     snap[("classattr", name, v.__name__ + "." + ck)] = _fp(cv)
             if isinstance(v, types.FunctionType) and v.__defaults__:
                 snap[("defaults", name, k)] = _fp(v.__defaults__)
+    from shadow.dispatch import SYM
+
+    for did, (dobj, side) in SYM.symkeys.items():
+        if side:
+            snap[("symbolic-keyed entries of dict", did)] = len(side)
     for i, inst in enumerate(instances):
         for k, v in vars(inst).items():
             snap[("instance", i, k)] = _fp(v)
